@@ -199,66 +199,31 @@ theorem iq_eventually_exactly_once (own : String) (sock sm : Bool) (pre suffix :
 /-! ### Archive retrieval (`QXmppMamManager::retrieveMessages`) -/
 
 /-- **The retrieval promise is finished at most once**, for every configuration (encryption
-extension installed or not, decryption reporting at once or later, fix applied or not) and every
-history of collected messages, IQ completions and decryption reports. -/
-theorem mam_finishes_at_most_once (e2ee instant fixEmpty : Bool) (ops : List Mam.Op) :
-    Mam.finishes (Mam.run (Mam.init e2ee instant fixEmpty) ops).2 ≤ 1 := by
-  have h := Mam.reachable_minv e2ee instant fixEmpty ops
-  cases ha : (Mam.run (Mam.init e2ee instant fixEmpty) ops).1.answered with
+extension installed or not, decryption reporting at once or later) and every history of collected
+messages, IQ completions and decryption reports. -/
+theorem mam_finishes_at_most_once (e2ee instant : Bool) (ops : List Mam.Op) :
+    Mam.finishes (Mam.run (Mam.init e2ee instant) ops).2 ≤ 1 := by
+  have h := Mam.reachable_minv e2ee instant ops
+  cases ha : (Mam.run (Mam.init e2ee instant) ops).1.answered with
   | false => have := (h.fresh ha).2; omega
-  | true => rcases h.state ha with h1 | h1 | h1 <;> omega
+  | true => rcases h.state ha with h1 | h1 <;> omega
 
-/-- **Exactly once — partial.** Full statement (false today, see the defect below): "once the request
-IQ has completed and every decryption job has reported, the promise has been finished exactly once".
-Proved here with the one missing case named: unless an encryption extension is installed and the
-result page was empty (`page = 0`), in which case it has not been finished and the entry is still
-there. -/
-theorem mam_finishes_once_partial (e2ee instant : Bool) (ops : List Mam.Op)
-    (ha : (Mam.run (Mam.init e2ee instant false) ops).1.answered = true)
-    (hw : (Mam.run (Mam.init e2ee instant false) ops).1.waiting = []) :
-    Mam.finishes (Mam.run (Mam.init e2ee instant false) ops).2 = 1 ∨
-    (e2ee = true ∧ (Mam.run (Mam.init e2ee instant false) ops).1.page = 0 ∧
-      Mam.finishes (Mam.run (Mam.init e2ee instant false) ops).2 = 0 ∧
-      (Mam.run (Mam.init e2ee instant false) ops).1.active = true) := by
-  have h := Mam.reachable_minv e2ee instant false ops
-  rcases h.state ha with h1 | h1 | h1
+/-- **Exactly once.** For every configuration and every history: once the request IQ has completed
+(result, error or cancellation) and every decryption job has reported, the promise has been
+finished exactly once and the request state has been released — with or without an encryption
+extension, an empty result page included.  (Before repo commit bf0355b "fix: MAM retrieval with an
+e2ee extension never finishes on an empty result page" this was false: the old model proved the
+negation with the witness `[start, iqResult]`, e2ee installed, which is kept first in the harness
+corpus.) -/
+theorem mam_finishes_once (e2ee instant : Bool) (ops : List Mam.Op)
+    (ha : (Mam.run (Mam.init e2ee instant) ops).1.answered = true)
+    (hw : (Mam.run (Mam.init e2ee instant) ops).1.waiting = []) :
+    Mam.finishes (Mam.run (Mam.init e2ee instant) ops).2 = 1 ∧
+    (Mam.run (Mam.init e2ee instant) ops).1.active = false := by
+  have h := Mam.reachable_minv e2ee instant ops
+  rcases h.state ha with h1 | h1
   · exact absurd hw h1.1
-  · exact Or.inl h1.2.1
-  · exact Or.inr ⟨h1.2.2.2.1, h1.2.2.2.2.2, h1.2.1, h1.2.2.1⟩
-
-/-- Without an encryption extension the full statement holds. -/
-theorem mam_finishes_once_without_e2ee (instant : Bool) (ops : List Mam.Op)
-    (ha : (Mam.run (Mam.init false instant false) ops).1.answered = true)
-    (hw : (Mam.run (Mam.init false instant false) ops).1.waiting = []) :
-    Mam.finishes (Mam.run (Mam.init false instant false) ops).2 = 1 := by
-  rcases mam_finishes_once_partial false instant ops ha hw with h | h
-  · exact h
-  · exact absurd h.1 (by simp)
-
-/-- **Defect in today's code.** With an encryption extension installed, a result page with zero
-messages never finishes the promise: the loop over the messages does not run and the job counter
-starts at 0, so nobody calls `finish()` and the entry is never erased.  Witness: start, then the
-`<fin/>` result IQ. -/
-theorem C07_defect_mam_empty_page_e2ee :
-    ¬ (∀ (e2ee instant : Bool) (ops : List Mam.Op),
-        (Mam.run (Mam.init e2ee instant false) ops).1.answered = true →
-        (Mam.run (Mam.init e2ee instant false) ops).1.waiting = [] →
-        Mam.finishes (Mam.run (Mam.init e2ee instant false) ops).2 = 1) := by
-  intro h
-  have := h true false [.start, .iqResult] (by decide) (by decide)
-  exact absurd this (by decide)
-
-/-- **With fixes/C07-mam-empty-page.diff applied** (`fixEmpty = true`: an empty page is finished
-at once) the full statement holds for every configuration and history. -/
-theorem mam_fixed_finishes_once (e2ee instant : Bool) (ops : List Mam.Op)
-    (ha : (Mam.run (Mam.init e2ee instant true) ops).1.answered = true)
-    (hw : (Mam.run (Mam.init e2ee instant true) ops).1.waiting = []) :
-    Mam.finishes (Mam.run (Mam.init e2ee instant true) ops).2 = 1 := by
-  have h := Mam.reachable_minv e2ee instant true ops
-  rcases h.state ha with h1 | h1 | h1
-  · exact absurd hw h1.1
-  · exact h1.2.1
-  · exact absurd h1.2.2.2.2.1 (by simp)
+  · exact ⟨h1.2.1, h1.2.2⟩
 
 /-! ### Non-vacuity: the hypotheses above are met by concrete reachable states. -/
 
@@ -301,14 +266,13 @@ example : (run (init "me@own.org" false true)
 example : (run (init "me@own.org" true false)
     [.send (.named "a") "x@y", .recv ⟨.iq, .other, .named "zz", "eve@evil.org"⟩]).2
     = [⟨0, .named "a", .cancelled⟩] := by decide
--- archive retrieval: the defect witness, the same page with one message, and the fixed machine
-example : (Mam.run (Mam.init true false false) [.start, .iqResult]).1.answered = true
-    ∧ (Mam.run (Mam.init true false false) [.start, .iqResult]).1.waiting = []
-    ∧ (Mam.run (Mam.init true false false) [.start, .iqResult]).2 = [] := by decide
-example : (Mam.run (Mam.init true false false) [.start, .collect true true, .collect true false, .iqResult, .decrypted 0]).2
+-- archive retrieval: the former defect witness (empty page, e2ee), a page with a deferred decryption, no e2ee
+example : (Mam.run (Mam.init true false) [.start, .iqResult]).1.answered = true
+    ∧ (Mam.run (Mam.init true false) [.start, .iqResult]).1.waiting = []
+    ∧ (Mam.run (Mam.init true false) [.start, .iqResult]).2 = [.finishedOk 0] := by decide
+example : (Mam.run (Mam.init true false) [.start, .collect true true, .collect true false, .iqResult, .decrypted 0]).2
     = [.finishedOk 2] := by decide
-example : (Mam.run (Mam.init true false true) [.start, .iqResult]).2 = [.finishedOk 0] := by decide
-example : (Mam.run (Mam.init false false false) [.start, .collect true false, .iqResult, .iqResult, .iqError]).2
+example : (Mam.run (Mam.init false false) [.start, .collect true false, .iqResult, .iqResult, .iqError]).2
     = [.finishedOk 1] := by decide
 
 end Qx.C07
